@@ -1191,7 +1191,8 @@ func genSig0(t *rapid.T) sigCase {
 		c.Muts = append(c.Muts, Mut{Op: rapid.SampledFrom([]string{"set", "set", "ins", "del", "count", "ptr"}).Draw(t, "op"),
 			Pos: rapid.IntRange(0, 1<<20).Draw(t, "mpos"), Val: rapid.SliceOfN(rapid.Byte(), 1, 4).Draw(t, "mval")})
 	}
-	genForeign(t, &c) // round 10: two thirds of the reference-signed cases write the SIG record as another implementation may
+	// round 10: two thirds of the reference-signed cases write the SIG record as another implementation may
+	genForeign(t, &c)
 	if rapid.IntRange(0, 11).Draw(t, "atmax") == 11 { // not 0: rapid shrinks draws towards 0, and a case of 65535 octets is the most expensive one to shrink on
 		sizeToLimit(t, &c, rapid.SampledFrom([]int{65535, 65535, 65534, 65536, 65536, 65537}).Draw(t, "target"))
 	}
